@@ -1,5 +1,7 @@
 import SqlizeModel.Driver.Pair
 import SqlizeModel.Impl.Hash
+import SqlizeModel.Spec.HashSpec
+import SqlizeModel.Spec.ProvedScope
 
 namespace Sqlize.Driver
 open Sqlize Sqlize.Codec Sqlize.Spec
@@ -68,7 +70,22 @@ def hashHandler : Handler
       if kind == "table-level-pk" then v else
       let gg := if kind == "case-option" then { g with lower := !g.lower } else g
       v.and (expectOutcome s!"hash-{kind}" (modelHash gg ss) h)) okV
-    some (corr.and ((judge "C07" region same).and ((judge "C07" (detourRegion.map (· ++ "/detour")) sameDetour).and
+    -- inside the executable scope of `proved_hash` (Proofs/ScopeB.lean) the value of every presentation must be the value
+    -- of its reference schema, computed from the schema alone (`DB.hashOf`, real md5): an oracle that does not go through
+    -- the model of the reader
+    let specOracle : Verdict := (ps ++ es).foldl (fun v (kind, ss, h) =>
+      let gg := if kind == "case-option" then { g with lower := !g.lower } else g
+      if !(Scope.Proved.hash gg ss) then v else
+      match execAll true [] ss with
+      | none => v
+      | some d =>
+        let want := toString (d.hashOf MD5.hex MD5.int64BE gg)
+        v.and
+          (judge "C07" none (check (h == want) s!"presentation {kind}: HashValue {h} is not the value of the reference schema ({want})"))) okV
+    let anyInside := (ps ++ es).any (fun (kind, ss, _) =>
+      Scope.Proved.hash (if kind == "case-option" then { g with lower := !g.lower } else g) ss && (execAll true [] ss).isSome)
+    let specOracle := (if anyInside then { items := ["proved[C07]"] } else okV : Verdict).and specOracle
+    some (specOracle.and <| corr.and ((judge "C07" region same).and ((judge "C07" (detourRegion.map (· ++ "/detour")) sameDetour).and
       ((judge "C07" (region.map (· ++ "/edits")) differs).and ((judge "C07" tlpkRegion sameTlpk).and
         (judge "C07" (alterRegion.map (· ++ "/alter-column")) sameAlter))))))
   | _ => none
